@@ -182,7 +182,7 @@ fn get_integer(buf: &mut Cursor<&[u8]>) -> Result<i64, Error> {
 
     // i64 has at most 19 digits, so we parse the first 18 digits using unchecked arithmetic
     // and parse the last few digits using checked arithmetic
-    let max_safe_digits = 18;
+    let max_safe_digits: usize = 18;
     let start = buf.position() as usize;
     let end = buf.get_ref().len() - 1;
     if start > end {
@@ -190,13 +190,16 @@ fn get_integer(buf: &mut Cursor<&[u8]>) -> Result<i64, Error> {
         return Err(Error::Incomplete);
     }
 
+    // index of the first digit that has to be parsed with checked arithmetic
+    let max_safe_idx = start.saturating_add(max_safe_digits);
+
     let mut idx = start;
     let mut num: i64 = 0;
 
     // using if clause improves performance over multiplying with the sign value
     let num = if is_positive {
         // parse unchecked
-        while idx != end && idx != max_safe_digits {
+        while idx != end && idx != max_safe_idx {
             match ascii_to_i64(buf.get_ref()[idx]) {
                 Some(n) => num = num * 10 + n,
                 None => break,
@@ -219,7 +222,7 @@ fn get_integer(buf: &mut Cursor<&[u8]>) -> Result<i64, Error> {
         num
     } else {
         // parse unchecked
-        while idx != end && idx != max_safe_digits {
+        while idx != end && idx != max_safe_idx {
             match ascii_to_i64(buf.get_ref()[idx]) {
                 Some(n) => num = num * 10 - n,
                 None => break,
